@@ -771,6 +771,7 @@ func (tx *Transaction) ExtractGetArguments(uri string) {
 func (tx *Transaction) AddGetRequestArgument(key string, value string) {
 	if tx.checkArgumentLimit(tx.variables.argsGet) {
 		tx.debugLogger.Warn().Msg("skipping get request argument, over limit")
+		tx.argumentLimitExceeded()
 		return
 	}
 	tx.variables.argsGet.Add(key, value)
@@ -780,6 +781,7 @@ func (tx *Transaction) AddGetRequestArgument(key string, value string) {
 func (tx *Transaction) AddPostRequestArgument(key string, value string) {
 	if tx.checkArgumentLimit(tx.variables.argsPost) {
 		tx.debugLogger.Warn().Msg("skipping post request argument, over limit")
+		tx.argumentLimitExceeded()
 		return
 	}
 	tx.variables.argsPost.Add(key, value)
@@ -796,6 +798,14 @@ func (tx *Transaction) AddPathRequestArgument(key string, value string) {
 
 func (tx *Transaction) checkArgumentLimit(c *collections.NamedCollection) bool {
 	return c.Len() >= tx.WAF.ArgumentLimit
+}
+
+// argumentLimitExceeded records that arguments beyond SecArgumentsLimit were not made
+// available to rules. As documented for the directive, this is signalled through
+// REQBODY_ERROR so that a rule (e.g. 200002 of the recommended configuration) can act on it.
+func (tx *Transaction) argumentLimitExceeded() {
+	tx.variables.reqbodyError.Set("1")
+	tx.variables.reqbodyErrorMsg.Set("SecArgumentsLimit exceeded")
 }
 
 // AddResponseArgument
